@@ -1,0 +1,9 @@
+//go:build verif
+
+// C06 (typestate order rule, decided at the typestate level): ExecAll evaluates its reference / sorted-set checks
+// against the live index inside the commit callback; that is only safe while every other writer of this database is
+// excluded, i.e. while d.mutex is held EXCLUSIVELY (Set / Delete hold it shared until their commit is indexed).
+package database
+
+//@ func (*db).ExecAll
+//@   order write_excluded_before_commit: d.mutex.Lock before d.st.CommitWith
